@@ -7,6 +7,8 @@ import (
 	"iter"
 	"net/http"
 	"net/http/httptest"
+	"runtime"
+	"slices"
 	"strings"
 	"sync"
 	"time"
@@ -326,6 +328,15 @@ func heldWriters() []heldWrite2 {
 			txn.Handle(http.MethodGet, "/new2", h)
 			return func() { _ = sn.Len() }
 		})},
+		{"Txn(true) after Truncate of everything", inTxn(func(txn *fox.Txn) func() { txn.Truncate(); return nil })},
+		{"Txn(true) after Truncate of one method", inTxn(func(txn *fox.Txn) func() { txn.Truncate(http.MethodGet); return nil })},
+		{"Txn(true) after an Update and a refused write", inTxn(func(txn *fox.Txn) func() {
+			txn.Update(http.MethodGet, "/held/a/b", h)
+			txn.Handle(http.MethodGet, "/held/{y}", h) // conflicts
+			txn.Delete(http.MethodGet, "/nowhere")
+			return nil
+		})},
+		{"Updates callback after Truncate of everything", parkedUpdates(func(txn *fox.Txn) func() { txn.Truncate(); return nil })},
 		{"Updates callback running", parkedUpdates(nil)},
 		{"Updates callback half way through Iter.All", parkedUpdates(func(txn *fox.Txn) func() { return halfIter(txn, false) })},
 	}
@@ -560,6 +571,136 @@ func runPanicInsideWrites(r *Run) {
 				d["prescribed"] = "the panic propagates, nothing is published, the router accepts new write transactions"
 				d["obtained"] = problem
 				r.violation(fmt.Sprintf("write=%s interrupted by a panic of user code: %s", w.name, problem[0]), d)
+			}
+		})
+	}
+}
+
+// C04 / C06: however a write transaction ends - committed with or without writes, given up, a managed one returning
+// nil or an error, with or without writes, its goroutine leaving through runtime.Goexit in the middle - nothing of an
+// unfinished one is published and the next writer gets the lock: writers wait only for writers that are still there.
+func runWriterAfterEndings(r *Run) {
+	h := routeHandler("e")
+	type ending struct {
+		name      string
+		run       func(rt *fox.Router)
+		published []string // of /e1, /e2: what must be visible afterwards
+	}
+	endings := []ending{
+		{"Txn(true), Commit at once", func(rt *fox.Router) { rt.Txn(true).Commit() }, nil},
+		{"Txn(true), Abort at once", func(rt *fox.Router) { rt.Txn(true).Abort() }, nil},
+		{"Txn(true), reads only, Commit", func(rt *fox.Router) {
+			txn := rt.Txn(true)
+			txn.Has(http.MethodGet, "/old")
+			for range txn.Iter().All() {
+			}
+			txn.Commit()
+		}, nil},
+		{"Txn(true), a refused write, Commit", func(rt *fox.Router) {
+			txn := rt.Txn(true)
+			txn.Handle(http.MethodGet, "/old", h)
+			txn.Commit()
+		}, nil},
+		{"Txn(true), writes, Commit, Abort", func(rt *fox.Router) {
+			txn := rt.Txn(true)
+			txn.Handle(http.MethodGet, "/e1", h)
+			txn.Commit()
+			txn.Abort()
+		}, []string{"/e1"}},
+		{"Txn(true), a write undone, Commit", func(rt *fox.Router) {
+			txn := rt.Txn(true)
+			txn.Handle(http.MethodGet, "/e1", h)
+			txn.Delete(http.MethodGet, "/e1")
+			txn.Commit()
+		}, nil},
+		{"Updates returning nil without a write", func(rt *fox.Router) { rt.Updates(func(txn *fox.Txn) error { return nil }) }, nil},
+		{"Updates: register unless present", func(rt *fox.Router) {
+			rt.Updates(func(txn *fox.Txn) error {
+				if !txn.Has(http.MethodGet, "/old") {
+					txn.Handle(http.MethodGet, "/old", h)
+				}
+				return nil
+			})
+		}, nil},
+		{"Updates returning an error after writes", func(rt *fox.Router) {
+			rt.Updates(func(txn *fox.Txn) error { txn.Handle(http.MethodGet, "/e1", h); return errSentinel })
+		}, nil},
+		{"Updates with writes", func(rt *fox.Router) {
+			rt.Updates(func(txn *fox.Txn) error {
+				txn.Handle(http.MethodGet, "/e1", h)
+				txn.Handle(http.MethodGet, "/e2", h)
+				return nil
+			})
+		}, []string{"/e1", "/e2"}},
+		{"View", func(rt *fox.Router) { rt.View(func(txn *fox.Txn) error { txn.Has(http.MethodGet, "/old"); return nil }) }, nil},
+		{"Updates left through runtime.Goexit between two writes", func(rt *fox.Router) {
+			done := make(chan struct{})
+			go func() {
+				defer close(done)
+				rt.Updates(func(txn *fox.Txn) error {
+					txn.Handle(http.MethodGet, "/e1", h)
+					runtime.Goexit()
+					txn.Handle(http.MethodGet, "/e2", h)
+					return nil
+				})
+			}()
+			<-done
+		}, nil},
+		{"View left through runtime.Goexit", func(rt *fox.Router) {
+			done := make(chan struct{})
+			go func() {
+				defer close(done)
+				rt.View(func(txn *fox.Txn) error { runtime.Goexit(); return nil })
+			}()
+			<-done
+		}, nil},
+	}
+	for _, e := range endings {
+		detail := func() map[string]any { return map[string]any{"family": "writer-after-endings", "ending": e.name} }
+		r.guard("a writer after a transaction has ended", detail, func() {
+			rt, err := fox.New()
+			if err != nil {
+				failTool("fox.New: %v", err)
+			}
+			rt.MustHandle(http.MethodGet, "/old", routeHandler("old"))
+			ended := make(chan struct{})
+			go func() {
+				defer close(ended)
+				defer func() { recover() }()
+				e.run(rt)
+			}()
+			var problem []string
+			select {
+			case <-ended:
+			case <-time.After(3 * time.Second):
+				problem = append(problem, "the transaction itself never ends")
+			}
+			r.addCov("transaction_endings", 1)
+			if len(problem) == 0 {
+				for _, p := range []string{"/e1", "/e2"} {
+					if want := slices.Contains(e.published, p); rt.Has(http.MethodGet, p) != want {
+						problem = append(problem, fmt.Sprintf("%s visible afterwards: %v, want %v", p, !want, want))
+					}
+				}
+				if want := 1 + len(e.published); rt.Len() != want {
+					problem = append(problem, fmt.Sprintf("Len=%d afterwards, want %d", rt.Len(), want))
+				}
+				done := make(chan error, 1)
+				go func() { _, err := rt.Handle(http.MethodGet, "/after", h); done <- err }()
+				select {
+				case err := <-done:
+					if err != nil {
+						problem = append(problem, "a later write fails: "+err.Error())
+					}
+				case <-time.After(3 * time.Second):
+					problem = append(problem, "a later writer never gets the lock although no write transaction is open")
+				}
+			}
+			if len(problem) > 0 {
+				d := detail()
+				d["prescribed"] = map[string]any{"published": e.published, "then": "the next writer proceeds"}
+				d["obtained"] = problem
+				r.violation(fmt.Sprintf("ending=%s: %s", e.name, problem[0]), d)
 			}
 		})
 	}
